@@ -115,14 +115,32 @@ def _setup(cx, stations, rows, sessions, sort, factory, limit_hi, warmup=False):
     return sc, ks
 
 
-def h_greedy(cx, stations, rows, sessions, sort, limit_hi, uninterrupted=False, warmup=False):
+def h_greedy(cx, stations, rows, sessions, sort, limit_hi, uninterrupted=False, warmup=False, estimator=None):
     env.install(cx)
     import acnportal.algorithms as ALG
 
-    sc, ks = _setup(cx, stations, rows, sessions, sort, lambda: ALG.SortedSchedulingAlgo(alglib.sort_fn(sort), uninterrupted_charging=uninterrupted), limit_hi, warmup)
+    holder = {}
+
+    def factory():
+        if estimator == "custom":
+            from props.C07 import CustomEstimator
+
+            holder["c"] = CustomEstimator(cx, None)
+            return ALG.SortedSchedulingAlgo(alglib.sort_fn(sort), uninterrupted_charging=uninterrupted, estimate_max_rate=True, max_rate_estimator=holder["c"].est)
+        return ALG.SortedSchedulingAlgo(alglib.sort_fn(sort), uninterrupted_charging=uninterrupted)
+
+    sc, ks = _setup(cx, stations, rows, sessions, sort, factory, limit_hi, warmup)
     n = len(stations)
     maxpil = [float(v) for v in sc.net.max_pilot_signals]
     minpil = [float(v) for v in sc.net.min_pilot_signals]
+    est_bound = {}
+    if estimator == "custom":
+        # the estimator reports a bound for the first session only (possibly ABOVE the station's maximum pilot) and omits the
+        # others (documented: a missing session is unbounded): the station maximum still applies to everybody
+        b = cx.real("estimator_bound0", lo=0, hi=2 * maxpil[sessions[0][0]])
+        holder["c"].bounds[sc.evs[0].session_id] = b
+        est_bound[0] = b
+        cx.tag("greedy:estimator")
     out = sc.algo.run()
     x = [out[sid][0] for sid in sc.ids]
     order = priority_order(cx, ks)
@@ -133,6 +151,8 @@ def h_greedy(cx, stations, rows, sessions, sort, limit_hi, uninterrupted=False, 
     else:
         lbs = {k: 0 for k in range(len(sessions))}
         ubs = {k: sym_min(maxpil[sessions[k][0]], alglib.remaining_amp_periods(sc, k)) for k in range(len(sessions))}
+    for k, b in est_bound.items():
+        ubs[k] = sym_min(ubs[k], b)
     cur = [0] * n
     for k in range(len(sessions)):
         cur[sessions[k][0]] = lbs[k]
@@ -321,6 +341,12 @@ def jobs(tier):
         if wu is True or not q:
             js.append(Job("greedy_second_call[av5+cc,%s%s]" % (sort, tagw), h_greedy, dict(stations=st, rows=[(1, 1)], sessions=SESS2, sort=sort, limit_hi=lh, warmup=wu), functions=FUNCS, max_paths=200000, timeout=6000,
                           bounds=dict(stations=[s_[0] for s_ in st], sessions=2, sort=sort, calls="warm-up call for two other sessions (0.2-0.7 kWh), then the judged call" + ("" if wu is True else "; every constraint updated in between")), cost=60))
+    # a rate estimator that bounds one session (possibly above the station maximum) and omits the other
+    for net_name, sort in ((("cont+cc", "fcfs"),) if q else (("cont+cc", "fcfs"), ("cont+cc", "lcfs"), ("cont+cont(2 rows)", "edf"))):
+        if net_name in nets:
+            st_, rows_, lh_ = nets[net_name]
+            js.append(Job("greedy[%s,%s,estimator]" % (net_name, sort), h_greedy, dict(stations=st_, rows=rows_, sessions=SESS2, sort=sort, limit_hi=lh_, estimator="custom"), functions=FUNCS, max_paths=200000, timeout=6000,
+                          bounds=dict(stations=[s_[0] for s_ in st_], constraints=rows_, sessions=2, sort=sort, estimator="custom: bound for session 0 in [0, 2 x station max], session 1 omitted"), cost=60))
     # the warm-up call is a round-robin call, the judged call a greedy one by ANOTHER algorithm object sharing the network
     js.append(Job("greedy_after_rr_on_shared_network[av5+cc,fcfs]", h_greedy, dict(stations=st, rows=[(1, 1)], sessions=SESS2, sort="fcfs", limit_hi=lh, warmup="rr_other_object"), functions=FUNCS, max_paths=200000, timeout=6000,
                   bounds=dict(stations=[s_[0] for s_ in st], sessions=2, sort="fcfs", calls="a RoundRobin object schedules two other sessions on the network first; then a fresh greedy algorithm is judged"), cost=60))
